@@ -39,6 +39,10 @@ def _tail_call(body, env):
     return None, [], env2
 
 
+# the sources of the chain are named functions: they stay calls (are never inlined into the chain)
+SOURCES = ("get_locale_from_html", "get_accepted_locale", "init_context_inner")
+
+
 def r1_chains(ctx):
     from rules import chains
     r = Rule("C15.R1", "precedence chains are the documented ones",
@@ -50,7 +54,7 @@ def r1_chains(ctx):
     if fn is None:
         r.missing("fetch_locale::resolve_locale")
     else:
-        body, env = chains.fn_env(ast, fn)
+        body, env = chains.fn_env(ast, fn, keep=SOURCES)
         cs = chains.cases(body, env)
         want = [((), ['cfg!feature="hydrate"?get_locale_from_html', "param0", "get_accepted_localeparam1"])]
         if cs == want:
@@ -63,7 +67,7 @@ def r1_chains(ctx):
         if fn is None:
             r.missing("fetch_locale::" + name)
             continue
-        body, env = chains.fn_env(ast, fn)
+        body, env = chains.fn_env(ast, fn, keep=SOURCES)
         callee, args, env2 = _tail_call(body, env)
         ok = callee == "signal_maybe_once_then" and len(args) == 2
         cs = chains.cases(args[0], env2) if ok else None
